@@ -563,12 +563,32 @@ fn check(c: &Case, obs: &mut Obs) -> Verdict {
     }
 }
 
+/// Entry point of the cargo-fuzz target: run one case, return (key, detail) for a finding that
+/// is not an open known finding (harness inconsistencies included).
+pub fn fuzz_one(c: &Case) -> Option<(String, String)> {
+    use std::sync::OnceLock;
+    static KNOWN: OnceLock<Vec<KnownFinding>> = OnceLock::new();
+    let known = KNOWN.get_or_init(|| {
+        install_panic_hook();
+        load_known().into_iter().filter(|k| k.property == "C09" && k.status == "open").collect()
+    });
+    let mut obs = Obs::default();
+    match check(c, &mut obs) {
+        Verdict::Fail { key, detail } if !known.iter().any(|k| k.key == key) => Some((key, detail)),
+        _ => None,
+    }
+}
+
+pub fn case_json(c: &Case) -> String {
+    serde_json::to_string(&serde_json::json!({"property": "C09", "sub": "dirty", "case": c})).unwrap_or_default()
+}
+
 fn subs() -> Vec<Box<dyn DynSub>> {
     vec![
-        Box::new(Sub { name: "same", strategy: same_cases, cases: (1500, 60_000), check, max_shrink_iters: 3000 }),
-        Box::new(Sub { name: "far-edit", strategy: far_cases, cases: (600, 20_000), check, max_shrink_iters: 3000 }),
-        Box::new(Sub { name: "translate", strategy: translate_cases, cases: (1500, 60_000), check, max_shrink_iters: 3000 }),
-        Box::new(Sub { name: "dirty", strategy: dirty_cases, cases: (300, 6_000), check, max_shrink_iters: 3000 }),
+        Box::new(Sub { name: "same", strategy: same_cases, cases: (1500, 40_000), check, max_shrink_iters: 3000 }),
+        Box::new(Sub { name: "far-edit", strategy: far_cases, cases: (600, 12_000), check, max_shrink_iters: 3000 }),
+        Box::new(Sub { name: "translate", strategy: translate_cases, cases: (1500, 40_000), check, max_shrink_iters: 3000 }),
+        Box::new(Sub { name: "dirty", strategy: dirty_cases, cases: (300, 4_000), check, max_shrink_iters: 3000 }),
     ]
 }
 
